@@ -4,11 +4,13 @@ import os
 import pkgutil
 
 
-def load_all(only=None):
+def load_all(only=None, exclude=("validators",)):
     suites, classifiers = {}, {}
     here = os.path.dirname(os.path.abspath(__file__))
     for m in sorted(pkgutil.iter_modules([here]), key=lambda x: x.name):
         if only is not None and m.name not in only:
+            continue
+        if only is None and m.name in exclude:
             continue
         mod = importlib.import_module("suites." + m.name)
         for name, g in getattr(mod, "SUITES", {}).items():
